@@ -1771,7 +1771,9 @@ class PyCdlib:
             # additional space in the PTR to store this directory.  We always
             # add 4 additional extents for that (2 for LE, 2 for BE).
             if pvd.add_to_ptr_size(path_table_record.PathTableRecord.record_length(ptr.len_di)):
-                num_bytes_to_add += 4 * self.logical_block_size
+                # All copies of the PVD describe the same path tables, so the
+                # growth is counted once, not once per copy.
+                num_bytes_to_add = 4 * self.logical_block_size
 
         return num_bytes_to_add
 
@@ -1792,7 +1794,9 @@ class PyCdlib:
             # longer needs the extra extents in the PTR that stored this
             # directory.  We always remove 4 additional extents for that.
             if pvd.remove_from_ptr_size(path_table_record.PathTableRecord.record_length(ptr.len_di)):
-                num_bytes_to_remove += 4 * self.logical_block_size
+                # All copies of the PVD describe the same path tables, so the
+                # shrink is counted once, not once per copy.
+                num_bytes_to_remove = 4 * self.logical_block_size
 
         return num_bytes_to_remove
 
